@@ -143,6 +143,12 @@ def validate_request(request, json_config):
         _logger.warning("No version in request: %s", fault)
         return fault
 
+    if "jsonrpc" not in request and json_config.version >= 2:
+        # JSON-RPC 1.0 request on a JSON-RPC 2.0 server:
+        # errors must be answered in the JSON-RPC 1.0 form
+        json_config = json_config.copy()
+        json_config.version = 1.0
+
     # Default parameters: empty list
     request.setdefault("params", [])
 
